@@ -19,11 +19,12 @@ pub fn history_rules(_prog: &Program, trace: &[Ev]) -> Vec<Verdict>
         {
             Ev::Panic(m) => push(&mut out, "C18", "h-panic", &["C02", "C03", "C07", "C10", "C11", "C12"], pos, format!("panic: {m}")),
             Ev::Probe { uid, s } if !s.is_empty() => push(&mut out, "C04", "h-probe-saw-data", &[], pos, format!("probe {uid:#x} observed {s:?}")),
-            Ev::Body { inst, n, cap, s } =>
+            Ev::Body { inst, n, cap, s, chg } =>
             {
                 let r = runs.entry(*inst).or_insert(0);
                 *r += 1;
                 if *n != *r || *cap != *r { push(&mut out, "C13", "h-local-continuity", &[], pos, format!("instance {inst}: run #{r} sees Local={n}, captured={cap}")); }
+                if *chg != (*r == 1) { push(&mut out, "C13", "h-change-detection-baseline", &["C17"], pos, format!("instance {inst}: run #{r} sees a never-touched resource as changed={chg}")); }
                 if s.second_take { push(&mut out, "C04", "h-second-take", &[], pos, format!("instance {inst} took a system event twice")); }
                 if s.count() > 1 { push(&mut out, "C03", "h-saw-two-events", &["C04", "C12"], pos, format!("instance {inst} run {n} sees more than one event: {s:?}")); }
             }
